@@ -145,7 +145,7 @@ def gen_cases(ctx, n):
                     p[name] = lo + (1e-6 * max(1.0, abs(lo)) if name.startswith("r_eff") else 0.0)
                 if np.isfinite(hi) and p[name] > hi:
                     p[name] = hi
-        cases.append(dict(kind=kind, N=N, ptype=t, params=p, wseed=int(rng.integers(0, 1000)), eager=(k % 6 == 0)))
+        cases.append(dict(kind=kind, N=N, ptype=t, params=p, wseed=int(rng.integers(0, 1000)), eager=(k % 7 == 0)))
     return cases
 
 
